@@ -1,7 +1,7 @@
 #!/usr/bin/env python3
 """Run every kept seeded change against the quick check(s) of its property; write seeded/RESULTS.json.
 The change is applied in a scratch clone of /repo (TXDBUS_REPO points the checks at it), never in /repo.
-usage: run_seeds.py [name-prefix ...]"""
+usage: run_seeds.py [--jobs N] [name-prefix ...]      (--jobs: N workers, each with a clone of its own)"""
 import json
 import os
 import shutil
@@ -11,10 +11,34 @@ import tempfile
 import time
 
 ROOT = '/verif'
+args = sys.argv[1:]
+jobs, shard = 1, None
+if args[:1] == ['--jobs']:
+    jobs, args = int(args[1]), args[2:]
+if args[:1] == ['--shard']:
+    shard, args = tuple(int(x) for x in args[1].split('/')), args[2:]
 names = sorted(d for d in os.listdir(ROOT + '/seeded') if os.path.isdir(ROOT + '/seeded/' + d))
-if len(sys.argv) > 1:
-    names = [n for n in names if any(n.startswith(p) for p in sys.argv[1:])]
+if args:
+    names = [n for n in names if any(n.startswith(p) for p in args)]
 resf = ROOT + '/seeded/RESULTS.json'
+if jobs > 1:
+    # N workers over interleaved shares of the list, results merged at the end
+    tmpd = tempfile.mkdtemp(prefix='txv-seedres-')
+    procs = [subprocess.Popen([sys.executable, __file__, '--shard', '%d/%d' % (i, jobs)] + args,
+                              env=dict(os.environ, TXV_SEED_RESULTS=os.path.join(tmpd, 'r%d.json' % i))) for i in range(jobs)]
+    for p in procs:
+        p.wait()
+    results = json.load(open(resf)) if os.path.exists(resf) else {}
+    for i in range(jobs):
+        f = os.path.join(tmpd, 'r%d.json' % i)
+        if os.path.exists(f):
+            results.update(json.load(open(f)))
+    json.dump(results, open(resf, 'w'), indent=1, sort_keys=True)
+    shutil.rmtree(tmpd, ignore_errors=True)
+    sys.exit(0)
+if shard:
+    names = names[shard[0]::shard[1]]
+    resf = os.environ['TXV_SEED_RESULTS']
 results = json.load(open(resf)) if os.path.exists(resf) else {}
 scratch = tempfile.mkdtemp(prefix='txv-seedrepo-')
 clone = os.path.join(scratch, 'repo')
